@@ -188,6 +188,21 @@ def run_unit(ctx, unit):
         else:
             case = core.Case(["@D@/first.json", "@D@/endless.fifo"] + largs, files=[("first.json", first)],
                              efifos=[("endless.fifo", rest, TAIL_PRE_U, TAIL_POST, cap)], watchdog_ms=30000)
+    if T == 0 and unit["transport"] in ("fifo", "file+fifo") and unit.get("file_parts", 0) % 2 == 0:
+        # nothing is wanted at all, and the input is a stream that is open but silent (its producer is attached and has not
+        # written anything yet): the run ends without waiting for a byte it does not need
+        case = core.Case(largs + ["@D@/silent.fifo"], b"", fifos=["silent.fifo"], fifohold=True, watchdog_ms=15000)
+        o = ctx.drv.run(case)
+        if o.result in ("timeout", "abort"):
+            o, ok = ctx.drv.confirm(case, o)
+            if not ok:
+                st.inconc("watchdog_not_reproduced")
+                return
+        st.count("conclusive")
+        st.count("silent_stream_runs")
+        if o.result != "ok" or o.stdout.strip(b"{}[]\n ") not in (b"",) :
+            st.violation("waits-on-silent-stream:" + o.result, "--take 0 on an open but silent stream: %s %s, stdout %r" % (o.result, o.errtext, o.stdout[:100]), unit, {"args": case.args, "obs": o.brief()})
+        return
     o = ctx.drv.run(case)
     if o.result in ("timeout", "abort"):
         o, ok = ctx.drv.confirm(case, o)
